@@ -67,6 +67,18 @@ def clamping_ttl_constructors(F):
     return out
 
 
+def _fallible_local_call(fn, b):
+    """Block b ends in a call to a function of this crate that returns a Result (a step that can still fail)."""
+    t = fn.blocks[b]['term']
+    if fn.blocks[b]['cleanup'] or t['k'] != 'call':
+        return False
+    n = callee_name(t)
+    if n.startswith(('std::', 'core::', 'alloc::', '<std::', '<core::', '<alloc::')):
+        return False
+    dty = fn.local_ty(t['dest']['l']) if not t['dest']['p'] else ''
+    return dty.startswith('std::result::Result')
+
+
 def check_rollback_completeness(R, F, rule='rollback'):
     wr = F.fn(ROLLBACK)
     dw = effects.direct_writes(wr)
@@ -113,7 +125,9 @@ def check_rollback_completeness(R, F, rule='rollback'):
             for (c, ff), sites in effects.direct_writes(clo).items():
                 if c == WRITER_TY and ff == f:
                     for b, k in sites:
-                        p = clo.find_path(b, lambda x: x in eb and x != b)
+                        p = clo.find_path(b, lambda x: x != b and (x in eb or _fallible_local_call(clo, x)))
+                        if p is None and k == 'assign' and _fallible_local_call(clo, b):
+                            p = [b]      # the store is followed, in its own block, by a call that can still fail
                         if p:
                             bad.append('%s is written at %s and an error return is still reachable afterwards (%s): a failed operation would leave it changed' % (f, clo.where(b), paths.fmt_path(clo, p)))
         R.require(not bad, rule, '%s|closure-effects' % clo.gpath, clo.where(),
@@ -224,3 +238,66 @@ def check_no_overrun(R, F):
                       'write_u16 at a variable offset (%s) that is not the RDLENGTH slot reserved under the available - cursor >= 2 test' % txt)
     R.floor('write-u16-offset', 5)
 
+def check_clear_rrs(R, F):
+    """clear_rrs resets exactly the fields the add_* operations may have changed (shared by C02 and C12)."""
+    cr = F.fn(W + 'clear_rrs')
+    dw = effects.direct_writes(cr)
+    written = {f for (c, f), sites in dw.items() if c == WRITER_TY and any(k in ('assign', 'calldest') for b, k in sites)}
+    want = {'ancount', 'nscount', 'arcount', 'cursor', 'section', 'most_recent_owner', 'most_recent_name_in_rdata'}
+    R.require(written == want, 'clear-rrs', W + 'clear_rrs|fields', cr.where(), 'resets %s' % sorted(written),
+              'clear_rrs writes %s, expected exactly %s (missing %s, extra %s)' % (sorted(written), sorted(want), sorted(want - written), sorted(written - want)))
+    # must reset everything add_* may write except octets / counters handled above
+    add_roots = [c.gpath for p, c in rollback_closures(F) if p.gpath != W + 'add_question']
+    addw = set(effects.transitive_writes(F, add_roots, WRITER_TY))
+    R.require(addw - {'qname'} <= want, 'clear-rrs', W + 'clear_rrs|covers-add-effects', cr.where(), 'add_* may write %s, all reset' % sorted(addw),
+              'add_* operations may write %s which clear_rrs does not reset' % sorted(addw - want))
+    # cursor := rr_start
+    for b, blk in enumerate(cr.blocks):
+        for st in blk['stmts']:
+            if st['k'] == 'assign' and st['lhs']['p'] and st['lhs']['p'][-1].get('n') == 'cursor':
+                txt = paths.show_operand(cr, st['rv']['op'])
+                R.require(txt == 'arg1.rr_start', 'clear-rrs', W + 'clear_rrs|cursor', cr.where(b), 'cursor = rr_start', 'clear_rrs sets cursor to %s, expected rr_start' % txt)
+    # arcount recomputed from reservations
+    from qv.flow import Slicer
+    sl = Slicer(cr, control=True).slice_place({'l': 1, 'p': ['deref', {'f': 9, 'n': 'arcount', 'ty': 'u16'}], 'ty': 'u16'})
+    srcs = {fp[0] for fp in sl.field_paths() if fp}
+    R.require({'edns', 'tsig'} <= srcs, 'clear-rrs', W + 'clear_rrs|arcount-keeps-reservations', cr.where(),
+              'ARCOUNT recounts the reserved OPT and TSIG records', 'clear_rrs no longer recounts the reserved OPT/TSIG records in ARCOUNT')
+    R.floor('clear-rrs', 4)
+
+
+def check_anchor_freshness(R, F, rule='anchor-fresh'):
+    """A compression anchor always describes the name written last in its role: whenever add_rr wrote an owner
+    (write_hinted_name succeeded) it stores the result -- Some or None -- in most_recent_owner before anything else
+    happens, and likewise for names in RDATA.  Keeping an older anchor would let Hint::MostRecentOwner (2nd..nth record
+    of an RRset) point at a different owner."""
+    ar = F.fn(W + 'add_rr')
+    eb = err_blocks(ar)
+    rets = ar.ret_blocks()
+    n = 0
+    for callee, field in (('write_hinted_name', 'most_recent_owner'), ('write_unhinted_name', 'most_recent_name_in_rdata'), ('write_uncompressed_name', 'most_recent_name_in_rdata')):
+        for cb, ct in calls_in(ar, W + callee):
+            n += 1
+            assigns = set()
+            for b, blk in enumerate(ar.blocks):
+                if blk['cleanup']:
+                    continue
+                for st in blk['stmts']:
+                    if st['k'] == 'assign' and st['lhs']['p'] and isinstance(st['lhs']['p'][-1], dict) and st['lhs']['p'][-1].get('n') == field and st['rv']['k'] == 'use':
+                        sl = slice_of(ar, st['rv']['op'], through_calls=True)
+                        if ('call', cb) in sl.nodes:
+                            assigns.add(b)
+                t = blk['term']
+                if t['k'] == 'call' and b == cb and t['dest']['p'] and isinstance(t['dest']['p'][-1], dict) and t['dest']['p'][-1].get('n') == field:
+                    assigns.add(b)
+            # before the next push / return, on every non-error path
+            def stop(b, assigns=assigns):
+                return b in assigns or b in eb
+            nxt = [b for b, t in ar.calls() if b != cb and callee_name(t).startswith(W) and ('push' in callee_name(t) or 'write_' in callee_name(t))]
+            p = None
+            if ct['t'] is not None and cb not in assigns:
+                p = paths.must_pass(ar, ct['t'], set(rets) | set(nxt), stop)
+            R.require(bool(assigns) and p is None, rule, '%s|%s<-%s#%d' % (ar.gpath, field, callee, n), ar.where(cb),
+                      '%s is replaced by the result of %s on every successful path, before the next write' % (field, callee),
+                      '%s is not updated from the result of %s on every successful path (%s): a stale anchor of an earlier, different name survives' % (field, callee, paths.fmt_path(ar, p) if p else 'no assignment found'))
+    R.floor(rule, 3)
